@@ -102,6 +102,12 @@ def run_C07(ctx):
     drive_and_validate(ctx, [{"driver": "C07", "n": sz(ctx, 2400, 100000)}])
 
 
+def run_C13(ctx):
+    run_model(ctx, "MC_BigInt", workers=4)
+    run_model(ctx, "MC_GeometryB", workers=8)
+    drive_and_validate(ctx, [{"driver": "C13", "n": sz(ctx, 1600, 60000), "probes": 24}])
+
+
 PROPS = {
     "C01": {"run": run_C01,
             "rule": "seeded generators (9 families) x 4 clip types x 4 fill rules x 4 entry points; an event is non-trivial "
@@ -160,6 +166,10 @@ PROPS = {
             "rule": "9 floating-point entry points (boolean, tree, engine, inflate, Minkowski sum/diff, rect clip of polygons "
                     "and lines, trim) x precisions -8..8 (and out-of-range ones) x decimal inputs with 0..3 digits and "
                     "magnitudes up to 10^11; non-trivial: non-empty result"},
+    "C13": {"run": run_C13,
+            "rule": "boolean ops / RectClip / polygon offsetting / PointInPolygon / Area64 on a small base input and on the "
+                    "same input translated anywhere within +-2^52 and scaled by factors up to MaxCoord/extent (2^61); "
+                    "non-trivial: non-empty base result"},
     "C02": {"run": run_C02,
             "rule": "as C01 with preserve-collinear / reverse-solution toggled; non-trivial as C01"},
 }
